@@ -871,11 +871,12 @@ structure AInv (st : St) (held : List WinTree.Id) : Prop where
     w.children = []
   held : ∀ h ∈ held, Alive st.tree h
   root : 1 ≤ st.owned.getD 0 0
+  pos : ∀ (i : WinTree.Id) (w : Win), st.tree.wins[i]? = some w → w.freed = false → 1 ≤ w.refcount
 
 theorem AInv.perm {st : St} {held held' : List WinTree.Id} (h : AInv st held) (hp : held.Perm held') : AInv st held' :=
   { tree := h.tree, drag := h.drag, size := h.size,
     rc := fun i w hw hf => by rw [← hp.count_eq i]; exact h.rc i w hw hf,
-    leaf := h.leaf, held := fun x hx => h.held x (hp.mem_iff.2 hx), root := h.root }
+    leaf := h.leaf, held := fun x hx => h.held x (hp.mem_iff.2 hx), root := h.root, pos := h.pos }
 
 /-- Back from the new store to the old one. -/
 theorem KeepOthers.back {c : WinTree.Id} {t t' : Tree} (h : KeepOthers c t t') {j : WinTree.Id} {x' : Win} (hj : j ≠ c)
@@ -900,13 +901,16 @@ theorem Evolve.back {t t' : Tree} (h : Evolve t t') {j : WinTree.Id} {x' : Win} 
 /-- A store operation that is a `StepOK` keeps the application invariant. -/
 theorem AInv.step {st : St} {held : List WinTree.Id} (h : AInv st held) {t' : Tree} (s : StepOK st.tree t') :
     AInv { st with tree := t' } held := by
-  refine ⟨s.inv, s.drag, by rw [s.ev.size]; exact h.size, ?_, ?_, fun x hx => s.ev.alive (h.held x hx), h.root⟩
+  refine ⟨s.inv, s.drag, by rw [s.ev.size]; exact h.size, ?_, ?_, fun x hx => s.ev.alive (h.held x hx), h.root, ?_⟩
   · intro i w' hw' hf'
     obtain ⟨w, hw, f, r, _⟩ := s.ev.back hw'
     rw [r]; exact h.rc i w hw (by rw [← f]; exact hf')
   · intro i w' hw' hf' ho
     obtain ⟨w, hw, f, _, c⟩ := s.ev.back hw'
     exact c (h.leaf i w hw (by rw [← f]; exact hf') ho)
+  · intro i w' hw' hf'
+    obtain ⟨w, hw, f, r, _⟩ := s.ev.back hw'
+    rw [r]; exact h.pos i w hw (by rw [← f]; exact hf')
 
 theorem getD_setIfInBounds {a : Array Nat} {i j : Nat} {v : Nat} (hi : i < a.size) :
     (a.setIfInBounds i v).getD j 0 = if i = j then v else a.getD j 0 := by
@@ -921,7 +925,13 @@ theorem AInv.ref {st : St} {held : List WinTree.Id} (h : AInv st held) {c : WinT
   rw [modify_ok hw hf]
   refine ⟨_, rfl, ?_, rfl⟩
   have sh := shape_set_rc hw (w.refcount + 1)
-  refine ⟨h.tree.shape sh, h.drag.shape sh rfl, by simpa using h.size, ?_, ?_, ?_, h.root⟩
+  refine ⟨h.tree.shape sh, h.drag.shape sh rfl, by simpa using h.size, ?_, ?_, ?_, h.root, ?_⟩
+  rotate_left 3
+  · intro i x hx hxf
+    rcases wins_set_cases hw i x hx with ⟨rfl, rfl⟩ | ⟨_, hx0⟩
+    · have := h.pos i w hw hf
+      simp only; omega
+    · exact h.pos i x hx0 hxf
   · intro i x hx hxf
     rcases wins_set_cases hw i x hx with ⟨rfl, rfl⟩ | ⟨hne, hx0⟩
     · simp only [List.count_cons_self]
@@ -953,7 +963,17 @@ theorem AInv.release {st : St} {held : List WinTree.Id} {c : WinTree.Id} (h : AI
     have := h.root; omega
   refine (unref_core h.tree h.drag hw hf h1 hlast).mono ?_
   intro st' ⟨hb, ho, hi', hd', ko, w', hw', hcase⟩
-  refine ⟨⟨hi', hd', by rw [ho, ko.size]; exact h.size, ?_, ?_, ?_, by rw [ho]; exact h.root⟩, hb⟩
+  refine ⟨⟨hi', hd', by rw [ho, ko.size]; exact h.size, ?_, ?_, ?_, by rw [ho]; exact h.root, ?_⟩, hb⟩
+  rotate_left 3
+  · intro i x' hx' hxf'
+    by_cases hic : i = c
+    · subst hic
+      rw [hw'] at hx'; cases hx'
+      rcases hcase with ⟨_, hfr⟩ | ⟨h2, _, hr, _⟩
+      · rw [hfr] at hxf'; cases hxf'
+      · rw [hr]; omega
+    · obtain ⟨x, hx, f, r, _⟩ := ko.back hic hx'
+      rw [r]; exact h.pos i x hx (by rw [← f]; exact hxf')
   · intro i x' hx' hxf'
     rw [ho]
     by_cases hic : i = c
@@ -1063,7 +1083,17 @@ theorem doAction_safe {st : St} {held : List WinTree.Id} (h : AInv st held) {a :
       refine (unref_core (st := { st with owned := st.owned.setIfInBounds a.win (st.owned.getD a.win 0 - 1) })
         hi0 h.drag hw hf (by omega) (fun _ => ⟨hch, hne⟩)).mono ?_
       intro st' ⟨hb, hoo, hi', hd', ko, w', hw', hcase⟩
-      refine ⟨⟨hi', hd', by rw [hoo]; simp only [Array.size_setIfInBounds]; rw [ko.size]; exact h.size, ?_, ?_, ?_, ?_⟩, hb⟩
+      refine ⟨⟨hi', hd', by rw [hoo]; simp only [Array.size_setIfInBounds]; rw [ko.size]; exact h.size, ?_, ?_, ?_, ?_, ?_⟩, hb⟩
+      rotate_left 4
+      · intro i x' hx' hxf'
+        by_cases hic : a.win = i
+        · subst hic
+          rw [hw'] at hx'; cases hx'
+          rcases hcase with ⟨_, hfr⟩ | ⟨h2, _, hr, _⟩
+          · rw [hfr] at hxf'; cases hxf'
+          · rw [hr]; omega
+        · obtain ⟨x, hx, f, r, _⟩ := ko.back (fun e => hic e.symm) hx'
+          rw [r]; exact h.pos i x hx (by rw [← f]; exact hxf')
       · intro i x' hx' hxf'
         rw [hoo, getD_setIfInBounds hlt]
         by_cases hic : a.win = i
@@ -1105,7 +1135,13 @@ theorem doAction_safe {st : St} {held : List WinTree.Id} (h : AInv st held) {a :
       have hlt : a.win < st.owned.size := by
         rw [h.size]; exact (Array.getElem?_eq_some_iff.1 hw).1
       have sh := shape_set_rc hw (w.refcount + 1)
-      refine ⟨⟨h.tree.shape sh, h.drag.shape sh rfl, by simpa using h.size, ?_, ?_, ?_, ?_⟩, rfl⟩
+      refine ⟨⟨h.tree.shape sh, h.drag.shape sh rfl, by simpa using h.size, ?_, ?_, ?_, ?_, ?_⟩, rfl⟩
+      rotate_left 4
+      · intro i x hx hxf
+        rcases wins_set_cases hw i x hx with ⟨_, rfl⟩ | ⟨_, hx0⟩
+        · have := h.pos a.win w hw hf
+          simp only; omega
+        · exact h.pos i x hx0 hxf
       · intro i x hx hxf
         rw [getD_setIfInBounds hlt]
         rcases wins_set_cases hw i x hx with ⟨hi', rfl⟩ | ⟨hne, hx0⟩
@@ -1132,7 +1168,7 @@ theorem doAction_safe {st : St} {held : List WinTree.Id} (h : AInv st held) {a :
     · exact flag _ (fun w => ⟨rfl, rfl, rfl, rfl, rfl, rfl⟩)
     · exact flag _ (fun w => ⟨rfl, rfl, rfl, rfl, rfl, rfl⟩)
   · simp only [hal, Bool.not_false, if_true]
-    exact ⟨⟨h.tree, h.drag, h.size, h.rc, h.leaf, h.held, h.root⟩, rfl⟩
+    exact ⟨⟨h.tree, h.drag, h.size, h.rc, h.leaf, h.held, h.root, h.pos⟩, rfl⟩
 
 /-- What a step of the dispatcher must deliver. -/
 def Good (held : List WinTree.Id) (st : St) : Prop := AInv st held ∧ TableOK st.binds
@@ -1163,7 +1199,7 @@ theorem runBindings_safe (kind : Kind) (win : WinTree.Id) (ev : Ev) : ∀ (idxs 
       simp only []
       have g1 : Good held (({ st with binds := st.binds.setIfInBounds bi { b with count := b.count + 1 } } : St).say
           (.call kind win b.idx (entryIndex b) b.entry.ret ev)) :=
-        ⟨⟨h.1.tree, h.1.drag, h.1.size, h.1.rc, h.1.leaf, h.1.held, h.1.root⟩, h.2.bump hb _⟩
+        ⟨⟨h.1.tree, h.1.drag, h.1.size, h.1.rc, h.1.leaf, h.1.held, h.1.root, h.1.pos⟩, h.2.bump hb _⟩
       apply SafeR.bind (doActions_safe _ _ held g1 (h.2.entry hb))
       intro st1 h1
       split
@@ -1174,7 +1210,7 @@ theorem runHandlers_safe (kind : Kind) (win : WinTree.Id) (ev : Ev) (st : St) (h
     SafeR (runHandlers st kind win ev) (fun p => Good held p.1) := by
   unfold runHandlers
   exact runBindings_safe kind win ev _ _ held
-    ⟨⟨h.1.tree, h.1.drag, h.1.size, h.1.rc, h.1.leaf, h.1.held, h.1.root⟩, h.2⟩
+    ⟨⟨h.1.tree, h.1.drag, h.1.size, h.1.rc, h.1.leaf, h.1.held, h.1.root, h.1.pos⟩, h.2⟩
 
 theorem isShown_safe {t : Tree} (hi : TInv t) : ∀ (f : Nat) (i : WinTree.Id), Alive t i →
     SafeR (isShown t f i) (fun _ => True) := by
@@ -1661,7 +1697,7 @@ theorem onTermKey_safe (fuel : Nat) {st : St} (ev : Ev) (h : Good [] st) :
   exact handleKey_safe fuel st 0 ev [] h ⟨w0, hw0, hf0⟩
 
 theorem Good.say {held : List WinTree.Id} {st : St} (h : Good held st) (i : LogItem) : Good held (st.say i) :=
-  ⟨⟨h.1.tree, h.1.drag, h.1.size, h.1.rc, h.1.leaf, h.1.held, h.1.root⟩, h.2⟩
+  ⟨⟨h.1.tree, h.1.drag, h.1.size, h.1.rc, h.1.leaf, h.1.held, h.1.root, h.1.pos⟩, h.2⟩
 
 /-- `tickit_term_emit_key` / `tickit_term_emit_mouse` on the repaired code: from an application state that satisfies
     the invariant (no dispatcher reference outstanding), whatever the covered handlers do, the outcome is never an
@@ -1773,7 +1809,7 @@ def ainvCheck (st : St) : Bool :=
   (List.range st.tree.wins.size).all fun i =>
     match st.tree.wins[i]? with
     | none => true
-    | some w => w.freed || (decide (w.refcount = (st.owned.getD i 0 : Int)) &&
+    | some w => w.freed || (decide (w.refcount = (st.owned.getD i 0 : Int)) && decide (1 ≤ w.refcount) &&
         (decide (st.owned.getD i 0 ≠ 0) || w.children.isEmpty))
 
 theorem ainvCheck_sound {st : St} (h : ainvCheck st = true) : AInv st [] := by
@@ -1781,12 +1817,15 @@ theorem ainvCheck_sound {st : St} (h : ainvCheck st = true) : AInv st [] := by
   simp only [Bool.and_eq_true, List.all_eq_true, List.mem_range, beq_iff_eq, decide_eq_true_eq] at h
   obtain ⟨⟨⟨⟨ht, hd⟩, hs⟩, hr⟩, hall⟩ := h
   have hw : ∀ (i : WinTree.Id) (w : Win), st.tree.wins[i]? = some w → w.freed = false →
-      w.refcount = (st.owned.getD i 0 : Int) ∧ (st.owned.getD i 0 ≠ 0 ∨ w.children = []) := by
+      (w.refcount = (st.owned.getD i 0 : Int) ∧ 1 ≤ w.refcount) ∧ (st.owned.getD i 0 ≠ 0 ∨ w.children = []) := by
     intro i w hw hf
     have := hall i (Array.getElem?_eq_some_iff.1 hw).1
     simp only [hw, hf, Bool.false_or, Bool.and_eq_true, decide_eq_true_eq, Bool.or_eq_true, List.isEmpty_iff] at this
     exact this
-  refine ⟨tinvCheck_sound ht, ?_, hs, ?_, ?_, fun x hx => (by cases hx), hr⟩
+  refine ⟨tinvCheck_sound ht, ?_, hs, ?_, ?_, fun x hx => (by cases hx), hr, ?_⟩
+  rotate_left 3
+  · intro i w hwi hf
+    exact (hw i w hwi hf).1.2
   · intro d hdd
     rw [hdd] at hd
     simp only at hd
@@ -1795,7 +1834,7 @@ theorem ainvCheck_sound {st : St} (h : ainvCheck st = true) : AInv st [] := by
     | none => simp [hwd] at hd
     | some w => simp only [hwd] at hd; exact ⟨w, hwd, by simpa using hd⟩
   · intro i w hwi hf
-    have := (hw i w hwi hf).1
+    have := (hw i w hwi hf).1.1
     simp only [List.count_nil]
     omega
   · intro i w hwi hf ho
@@ -1822,6 +1861,346 @@ theorem tableCheck_sound {binds : Array Binding} (h : tableCheck binds = true) :
   simp only [Bool.or_eq_true, beq_iff_eq] at this
   unfold ActOK
   rcases this with ((((((h1 | h1) | h1) | h1) | h1) | h1) | h1) <;> simp [h1]
+
+/-! ### the states the engine builds satisfy the invariant -/
+
+theorem newSt_good (lines cols : Int) : Good [] (newSt lines cols) := by
+  refine ⟨?_, fun i b hb => by simp [newSt] at hb⟩
+  have hwins : (newSt lines cols).tree.wins = #[({ rect := ⟨0, 0, lines, cols⟩, isRoot := true } : Win)] := rfl
+  have only0 : ∀ (i : WinTree.Id) (w : Win), (newSt lines cols).tree.wins[i]? = some w →
+      i = 0 ∧ w = ({ rect := ⟨0, 0, lines, cols⟩, isRoot := true } : Win) := by
+    intro i w hw
+    rw [hwins] at hw
+    have hi : i < 1 := (Array.getElem?_eq_some_iff.1 hw).1
+    have : i = 0 := Nat.lt_one_iff.1 hi
+    subst this
+    simp at hw
+    exact ⟨rfl, hw.symm⟩
+  have hq : (newSt lines cols).tree.root.changes = [] := by
+    unfold newSt newRoot; split <;> rfl
+  have hdr : (newSt lines cols).tree.root.dragSource = none := by
+    unfold newSt newRoot; split <;> rfl
+  constructor
+  · constructor
+    · exact ⟨_, by rw [hwins]; rfl, rfl, rfl⟩
+    · intro i c w hw _ hc
+      obtain ⟨_, rfl⟩ := only0 i w hw
+      cases hc
+    · intro c p cw hw _ hp
+      obtain ⟨_, rfl⟩ := only0 c cw hw
+      cases hp
+    · intro i f w hw _ hf
+      obtain ⟨_, rfl⟩ := only0 i w hw
+      cases hf
+    · intro i w hw _
+      obtain ⟨_, rfl⟩ := only0 i w hw
+      exact List.nodup_nil
+    · intro i w hw _
+      obtain ⟨_, rfl⟩ := only0 i w hw
+      simp
+    · intro i w hw _ hcl
+      obtain ⟨_, rfl⟩ := only0 i w hw
+      cases hcl
+    · exact hq
+  · intro d hd; rw [hdr] at hd; cases hd
+  · rfl
+  · intro i w hw _
+    obtain ⟨rfl, rfl⟩ := only0 i w hw
+    rfl
+  · intro i w hw _ ho
+    obtain ⟨rfl, rfl⟩ := only0 i w hw
+    rfl
+  · intro x hx; cases hx
+  · exact Nat.le_refl 1
+  · intro i w hw _
+    obtain ⟨_, rfl⟩ := only0 i w hw
+    exact Int.le_refl 1
+
+theorem addBinding_good {st : St} (h : Good [] st) (win : WinTree.Id) (kind : Kind) (es : List Entry)
+    (hes : ∀ e ∈ es, ∀ a ∈ e.actions, ActOK a) : Good [] (addBinding st win kind es).1 := by
+  refine ⟨⟨h.1.tree, h.1.drag, h.1.size, h.1.rc, h.1.leaf, h.1.held, h.1.root, h.1.pos⟩, ?_⟩
+  intro i b hb e he
+  simp only [addBinding] at hb
+  rw [Array.getElem?_push] at hb
+  split at hb
+  · cases hb; exact hes e he
+  · exact h.2 i b hb e he
+
+/-- The body of `tickit_window_new` after the ROOT_PARENT walk. -/
+def insertNew (t : Tree) (fuel : Nat) (hidden lowest steal : Bool) (pr : WinTree.Id × Rect) : Res (Tree × WinTree.Id) :=
+  match pr with
+  | (parent, rect) => do
+    let _ ← WinTree.get t parent
+    let id := t.wins.size
+    let w : Win := { parent := some parent, rect := rect, isVisible := !hidden, stealInput := steal }
+    let t := { t with wins := t.wins.push w }
+    let t ← doHierarchyChange t fuel (if lowest then .insertLast else .insertFirst) parent id
+    pure (t, id)
+
+theorem newWindow_eq (t : Tree) (f : Nat) (p : WinTree.Id) (r : Rect) (rp hid low st : Bool) :
+    newWindow t f p r rp hid low st =
+      if rp then (newWindow.climb t f p r >>= insertNew t f hid low st) else insertNew t f hid low st (p, r) := by
+  unfold newWindow insertNew
+  cases rp <;> rfl
+
+theorem climb_safe {t : Tree} (hi : TInv t) : ∀ (f : Nat) (p : WinTree.Id) (r : Rect), Alive t p →
+    SafeR (newWindow.climb t f p r) (fun pr => Alive t pr.1) := by
+  intro f
+  induction f with
+  | zero => intro p r _; exact Or.inl rfl
+  | succ f ih =>
+    intro p r hp
+    obtain ⟨pw, hg, hpw, hpf⟩ := hp.get
+    simp only [newWindow.climb, hg, res_bind_ok]
+    cases hpp : pw.parent with
+    | none => exact ⟨pw, hpw, hpf⟩
+    | some pp =>
+      obtain ⟨qw, hqw, hqf, _⟩ := hi.parent p pp pw hpw hpf hpp
+      exact ih pp _ ⟨qw, hqw, hqf⟩
+
+/-- The store after a new window `id = size` with parent `p` has been pushed and linked into `p`'s children
+    (`cs'` is `id :: cs` or `cs ++ [id]`). -/
+theorem insert_step {t : Tree} (hi : TInv t) (hd : DragOK t) {p : WinTree.Id} {pw : Win} (hpw : t.wins[p]? = some pw)
+    (hpf : pw.freed = false) (wn : Win) (hwp : wn.parent = some p) (hwc : wn.children = []) (hwf : wn.freed = false)
+    (hwfo : wn.focusedChild = none) (hwcl : wn.isClosed = false) (cs' : List WinTree.Id)
+    (hcs : ∀ c, c ∈ cs' ↔ c = t.wins.size ∨ c ∈ pw.children) (hnd : cs'.Nodup) :
+    let t2 := WinTree.set { t with wins := t.wins.push wn } p { pw with children := cs' }
+    TInv t2 ∧ DragOK t2 ∧ t2.wins.size = t.wins.size + 1 ∧ t2.wins[t.wins.size]? = some wn ∧
+      (∀ (j : WinTree.Id) (x : Win), t.wins[j]? = some x → ∃ x', t2.wins[j]? = some x' ∧ x'.freed = x.freed ∧
+        x'.refcount = x.refcount ∧ (j ≠ p → x'.children = x.children)) ∧
+      (∀ (j : WinTree.Id) (x' : Win), t2.wins[j]? = some x' → j = t.wins.size ∨ ∃ x, t.wins[j]? = some x) := by
+  intro t2
+  have hplt : p < t.wins.size := (Array.getElem?_eq_some_iff.1 hpw).1
+  have hpne : p ≠ t.wins.size := Nat.ne_of_lt hplt
+  have hp1 : ({ t with wins := t.wins.push wn } : Tree).wins[p]? = some pw := by
+    simp only [Array.getElem?_push, hpne, if_false]; exact hpw
+  have atId : t2.wins[t.wins.size]? = some wn := by
+    show (WinTree.set _ p _).wins[t.wins.size]? = some wn
+    rw [wins_set_ne hpne]
+    simp [Array.getElem?_push]
+  have atP : t2.wins[p]? = some { pw with children := cs' } := wins_set_self hp1
+  have atOld : ∀ j, j ≠ p → j ≠ t.wins.size → t2.wins[j]? = t.wins[j]? := by
+    intro j h1 h2
+    show (WinTree.set _ p _).wins[j]? = _
+    rw [wins_set_ne (fun h => h1 h.symm)]
+    simp [Array.getElem?_push, h2]
+  have look : ∀ (j : WinTree.Id) (x : Win), t2.wins[j]? = some x →
+      (j = t.wins.size ∧ x = wn) ∨ (j = p ∧ x = { pw with children := cs' }) ∨
+      (j ≠ t.wins.size ∧ j ≠ p ∧ t.wins[j]? = some x) := by
+    intro j x hx
+    by_cases h1 : j = t.wins.size
+    · subst h1; rw [atId] at hx; cases hx; exact Or.inl ⟨rfl, rfl⟩
+    · by_cases h2 : j = p
+      · subst h2; rw [atP] at hx; cases hx; exact Or.inr (Or.inl ⟨rfl, rfl⟩)
+      · rw [atOld j h2 h1] at hx; exact Or.inr (Or.inr ⟨h1, h2, hx⟩)
+  have oldlt : ∀ (j : WinTree.Id) (x : Win), t.wins[j]? = some x → j ≠ t.wins.size := by
+    intro j x hx h
+    have hlt : j < t.wins.size := (Array.getElem?_eq_some_iff.1 hx).1
+    exact Nat.ne_of_lt hlt h
+  have keep : ∀ (j : WinTree.Id) (x : Win), t.wins[j]? = some x → ∃ x', t2.wins[j]? = some x' ∧ x'.freed = x.freed ∧
+      x'.refcount = x.refcount ∧ x'.parent = x.parent ∧ (j ≠ p → x'.children = x.children) := by
+    intro j x hx
+    by_cases h2 : j = p
+    · subst h2; rw [hpw] at hx; cases hx
+      exact ⟨_, atP, rfl, rfl, rfl, fun h => absurd rfl h⟩
+    · exact ⟨x, by rw [atOld j h2 (oldlt j x hx)]; exact hx, rfl, rfl, rfl, fun _ => rfl⟩
+  refine ⟨?_, ?_, by show (WinTree.set _ p _).wins.size = _; simp, atId, ?_, ?_⟩
+  · constructor
+    · obtain ⟨w0, hw0, hf0, hp0⟩ := hi.root
+      obtain ⟨x', hx', f, _, pp, _⟩ := keep 0 w0 hw0
+      exact ⟨x', hx', by rw [f]; exact hf0, by rw [pp]; exact hp0⟩
+    · intro i c x hx hxf hc
+      rcases look i x hx with ⟨rfl, rfl⟩ | ⟨rfl, rfl⟩ | ⟨h1, h2, h3⟩
+      · rw [hwc] at hc; cases hc
+      · rcases (hcs c).1 hc with rfl | hc'
+        · exact ⟨wn, atId, hwf, hwp⟩
+        · obtain ⟨cw, hcw, hcf, hcp⟩ := hi.child i c pw hpw hpf hc'
+          obtain ⟨x', hx', f, _, pp, _⟩ := keep c cw hcw
+          exact ⟨x', hx', by rw [f]; exact hcf, by rw [pp]; exact hcp⟩
+      · obtain ⟨cw, hcw, hcf, hcp⟩ := hi.child i c x h3 hxf hc
+        obtain ⟨x', hx', f, _, pp, _⟩ := keep c cw hcw
+        exact ⟨x', hx', by rw [f]; exact hcf, by rw [pp]; exact hcp⟩
+    · intro c q x hx hxf hq
+      rcases look c x hx with ⟨rfl, rfl⟩ | ⟨rfl, rfl⟩ | ⟨h1, h2, h3⟩
+      · rw [hwp] at hq; cases hq
+        exact ⟨_, atP, hpf, (hcs _).2 (Or.inl rfl)⟩
+      · obtain ⟨qw, hqw, hqf, hqm⟩ := hi.parent c q pw hpw hpf hq
+        have hqc : q ≠ c := fun h => hi.noself c pw hpw hpf (by rw [hq, h])
+        obtain ⟨x', hx', f, _, _, cc⟩ := keep q qw hqw
+        exact ⟨x', hx', by rw [f]; exact hqf, by rw [cc hqc]; exact hqm⟩
+      · obtain ⟨qw, hqw, hqf, hqm⟩ := hi.parent c q x h3 hxf hq
+        by_cases hqp : q = p
+        · subst hqp; rw [hpw] at hqw; cases hqw
+          exact ⟨_, atP, hpf, (hcs c).2 (Or.inr hqm)⟩
+        · obtain ⟨x', hx', f, _, _, cc⟩ := keep q qw hqw
+          exact ⟨x', hx', by rw [f]; exact hqf, by rw [cc hqp]; exact hqm⟩
+    · intro i f x hx hxf hfc
+      rcases look i x hx with ⟨rfl, rfl⟩ | ⟨rfl, rfl⟩ | ⟨h1, h2, h3⟩
+      · rw [hwfo] at hfc; cases hfc
+      · exact (hcs f).2 (Or.inr (hi.focus i f pw hpw hpf hfc))
+      · exact hi.focus i f x h3 hxf hfc
+    · intro i x hx hxf
+      rcases look i x hx with ⟨rfl, rfl⟩ | ⟨rfl, rfl⟩ | ⟨h1, h2, h3⟩
+      · rw [hwc]; exact List.nodup_nil
+      · exact hnd
+      · exact hi.nodup i x h3 hxf
+    · intro i x hx hxf
+      rcases look i x hx with ⟨rfl, rfl⟩ | ⟨rfl, rfl⟩ | ⟨h1, h2, h3⟩
+      · rw [hwp]; intro h; cases h; exact hpne rfl
+      · exact hi.noself i pw hpw hpf
+      · exact hi.noself i x h3 hxf
+    · intro i x hx hxf hcl
+      rcases look i x hx with ⟨rfl, rfl⟩ | ⟨rfl, rfl⟩ | ⟨h1, h2, h3⟩
+      · rw [hwcl] at hcl; cases hcl
+      · exact hi.closed i pw hpw hpf hcl
+      · exact hi.closed i x h3 hxf hcl
+    · exact hi.queue
+  · intro d hdd
+    obtain ⟨x, hx, hxf⟩ := hd d hdd
+    obtain ⟨x', hx', f, _, _, _⟩ := keep d x hx
+    exact ⟨x', hx', by rw [f]; exact hxf⟩
+  · intro j x hx
+    obtain ⟨x', hx', f, r, _, cc⟩ := keep j x hx
+    exact ⟨x', hx', f, r, cc⟩
+  · intro j x' hx'
+    rcases look j x' hx' with ⟨rfl, _⟩ | ⟨rfl, _⟩ | ⟨_, _, h3⟩
+    · exact Or.inl rfl
+    · exact Or.inr ⟨pw, hpw⟩
+    · exact Or.inr ⟨x', h3⟩
+
+theorem getD_push {a : Array Nat} {j : Nat} {v : Nat} : (a.push v).getD j 0 = if j = a.size then v else a.getD j 0 := by
+  simp only [Array.getD_eq_getD_getElem?, Array.getElem?_push]
+  split <;> rfl
+
+/-- `tickit_window_new` by the application, outside any dispatch. -/
+theorem newWin_good {st : St} (h : Good [] st) {parent : WinTree.Id} (hp : Alive st.tree parent) (rect : Rect)
+    (rp hid low steal : Bool) : SafeR (newWin st parent rect rp hid low steal) (fun p => Good [] p.1) := by
+  unfold newWin
+  rw [newWindow_eq]
+  have body : ∀ (pr : WinTree.Id × Rect), Alive st.tree pr.1 →
+      SafeR (insertNew st.tree (treeFuel st.tree) hid low steal pr >>= fun x =>
+        pure (({ st with tree := x.1, owned := st.owned.push 1 } : St), x.2)) (fun p => Good [] p.1) := by
+    intro ⟨p, r⟩ hpa
+    obtain ⟨pw, hg, hpw, hpf⟩ := hpa.get
+    unfold insertNew
+    simp only [hg, res_bind_ok]
+    have hplt : p < st.tree.wins.size := (Array.getElem?_eq_some_iff.1 hpw).1
+    have hpne : p ≠ st.tree.wins.size := Nat.ne_of_lt hplt
+    generalize hwn : ({ parent := some p, rect := r, isVisible := !hid, stealInput := steal } : Win) = wn
+    have wnp : wn.parent = some p := by rw [← hwn]
+    have wnc : wn.children = [] := by rw [← hwn]
+    have wnf : wn.freed = false := by rw [← hwn]
+    have wnfo : wn.focusedChild = none := by rw [← hwn]
+    have wncl : wn.isClosed = false := by rw [← hwn]
+    have wnr : wn.refcount = 1 := by rw [← hwn]
+    have g1 : WinTree.get ({ st.tree with wins := st.tree.wins.push wn } : Tree) p = Res.ok pw := by
+      apply get_eq_ok.2; refine ⟨?_, hpf⟩
+      simp only [Array.getElem?_push, hpne, if_false]; exact hpw
+    have g2 : WinTree.get ({ st.tree with wins := st.tree.wins.push wn } : Tree) st.tree.wins.size = Res.ok wn := by
+      apply get_eq_ok.2; refine ⟨?_, wnf⟩
+      simp [Array.getElem?_push]
+    have fresh : st.tree.wins.size ∉ pw.children := by
+      intro hm
+      obtain ⟨cw, hcw, _, _⟩ := h.1.tree.child p _ pw hpw hpf hm
+      exact Nat.lt_irrefl _ (Array.getElem?_eq_some_iff.1 hcw).1
+    have hnd0 := h.1.tree.nodup p pw hpw hpf
+    -- what either way of linking gives
+    have fin : ∀ (cs' : List WinTree.Id), (∀ c, c ∈ cs' ↔ c = st.tree.wins.size ∨ c ∈ pw.children) → cs'.Nodup →
+        SafeR (if wn.isVisible = true then
+            expose (WinTree.set { st.tree with wins := st.tree.wins.push wn } p { pw with children := cs' })
+              (treeFuel st.tree) p (some wn.rect)
+          else pure (WinTree.set { st.tree with wins := st.tree.wins.push wn } p { pw with children := cs' }))
+          (fun t3 => Good [] ({ st with tree := t3, owned := st.owned.push 1 } : St)) := by
+      intro cs' hcs hnd
+      obtain ⟨hi2, hd2, hsz, hatId, hkeep, hback⟩ :=
+        insert_step h.1.tree h.1.drag hpw hpf wn wnp wnc wnf wnfo wncl cs' hcs hnd
+      have post : ∀ t3 : Tree, t3.wins = (WinTree.set { st.tree with wins := st.tree.wins.push wn } p
+          { pw with children := cs' }).wins → TInv t3 → DragOK t3 →
+          Good [] ({ st with tree := t3, owned := st.owned.push 1 } : St) := by
+        intro t3 e3 hi3 hd3
+        refine ⟨⟨hi3, hd3, ?_, ?_, ?_, fun x hx => (by cases hx), ?_, ?_⟩, h.2⟩
+        · show (st.owned.push 1).size = t3.wins.size
+          rw [e3, hsz, Array.size_push, h.1.size]
+        · intro j x' hx' hxf'
+          rw [e3] at hx'
+          show x'.refcount = ((st.owned.push 1).getD j 0 : Int) + _
+          rw [getD_push, h.1.size]
+          rcases hback j x' hx' with rfl | ⟨x, hx⟩
+          · rw [hatId] at hx'; cases hx'
+            simp [wnr]
+          · obtain ⟨x'', hx'', f, rr, _⟩ := hkeep j x hx
+            rw [hx'] at hx''; cases hx''
+            have hjne : j ≠ st.tree.wins.size := Nat.ne_of_lt (Array.getElem?_eq_some_iff.1 hx).1
+            rw [if_neg hjne, rr]
+            exact h.1.rc j x hx (by rw [← f]; exact hxf')
+        · intro j x' hx' hxf' ho
+          rw [e3] at hx'
+          have ho' : (st.owned.push 1).getD j 0 = 0 := ho
+          rw [getD_push, h.1.size] at ho'
+          rcases hback j x' hx' with rfl | ⟨x, hx⟩
+          · simp at ho'
+          · obtain ⟨x'', hx'', f, rr, cc⟩ := hkeep j x hx
+            rw [hx'] at hx''; cases hx''
+            have hjne : j ≠ st.tree.wins.size := Nat.ne_of_lt (Array.getElem?_eq_some_iff.1 hx).1
+            rw [if_neg hjne] at ho'
+            have hxf : x.freed = false := by rw [← f]; exact hxf'
+            by_cases hjp : j = p
+            · subst hjp
+              have h1 := h.1.rc j x hx hxf
+              have h2 := h.1.pos j x hx hxf
+              simp only [List.count_nil] at h1
+              omega
+            · rw [cc hjp]; exact h.1.leaf j x hx hxf ho'
+        · show 1 ≤ (st.owned.push 1).getD 0 0
+          rw [getD_push, h.1.size]
+          split
+          · exact Nat.le_refl 1
+          · exact h.1.root
+        · intro j x' hx' hxf'
+          rw [e3] at hx'
+          rcases hback j x' hx' with rfl | ⟨x, hx⟩
+          · rw [hatId] at hx'; cases hx'
+            rw [wnr]; exact Int.le_refl 1
+          · obtain ⟨x'', hx'', f, rr, _⟩ := hkeep j x hx
+            rw [hx'] at hx''; cases hx''
+            rw [rr]; exact h.1.pos j x hx (by rw [← f]; exact hxf')
+      by_cases hv : wn.isVisible = true
+      · rw [if_pos hv]
+        have hap : Alive (WinTree.set { st.tree with wins := st.tree.wins.push wn } p { pw with children := cs' }) p :=
+          ⟨_, wins_set_self (by simp only [Array.getElem?_push, hpne, if_false]; exact hpw), hpf⟩
+        refine (expose_safe hi2 _ p _ hap).mono ?_
+        intro t3 ⟨e1, e2, e3⟩
+        exact post t3 e1 (hi2.root_frame e1 e2 e3) (hd2.root_frame e1 e2 e3)
+      · rw [if_neg hv]
+        exact post _ rfl hi2 hd2
+    simp only [doHierarchyChange, g1, g2, res_bind_ok]
+    cases low with
+    | true =>
+      simp only [if_true, res_pure, res_bind_ok]
+      refine SafeR.bind (Q := fun (x : Tree × WinTree.Id) => Good [] ({ st with tree := x.1, owned := st.owned.push 1 } : St))
+        (SafeR.bind (fin (pw.children ++ [st.tree.wins.size])
+        (fun c => by simp only [List.mem_append, List.mem_singleton]; exact Or.comm)
+        (List.nodup_append.2 ⟨hnd0, List.nodup_cons.2 ⟨List.not_mem_nil, List.nodup_nil⟩, fun a ha b hb => by
+          simp only [List.mem_singleton] at hb; subst hb; intro e; subst e; exact fresh ha⟩)) (fun t3 h3 => h3))
+        (fun x hx => hx)
+    | false =>
+      simp only [Bool.false_eq_true, if_false, res_pure, res_bind_ok]
+      refine SafeR.bind (Q := fun (x : Tree × WinTree.Id) => Good [] ({ st with tree := x.1, owned := st.owned.push 1 } : St))
+        (SafeR.bind (fin (st.tree.wins.size :: pw.children) (fun c => List.mem_cons)
+        (List.nodup_cons.2 ⟨fresh, hnd0⟩)) (fun t3 h3 => h3)) (fun x hx => hx)
+  cases rp with
+  | true =>
+    simp only [if_true]
+    have hc := climb_safe h.1.tree (treeFuel st.tree) parent rect hp
+    cases hcl : newWindow.climb st.tree (treeFuel st.tree) parent rect with
+    | ub w => rw [hcl] at hc; exact hc
+    | ok pr =>
+      rw [hcl] at hc
+      simp only [res_bind_ok]
+      exact body pr hc
+  | false =>
+    simp only [Bool.false_eq_true, if_false]
+    exact body (parent, rect) hp
 
 end WinInput
 end Tickit
